@@ -1,4 +1,5 @@
 import Pyunicorn.Model.Random
+import Pyunicorn.Lemmas.RandomSrc
 /-! Helper lemmas for C17 (core Lean only). -/
 namespace Pyunicorn.Random
 
@@ -114,6 +115,7 @@ theorem geoStep_cases (c : GeoCfg) (st st' : GeoSt) (d : Nat × Nat)
               edges := (st.edges.set d.1 (s, l)).set d.2 (k, t)
               i := st.i + 1 } := by
   unfold geoStep at h
+  simp only [geoAcceptM_eq, rewireM_eq, (geoEdges_eq _ _ _ _).1, (geoEdges_eq _ _ _ _).2] at h
   split at h
   · rename_i s t k l h1 h2
     split at h
